@@ -18,7 +18,7 @@ def step(R, pid, tier, seed, what, tag):
         planlib.build_plan_obligation(ctx, prover, pid, 3 if q else 5, seed)
     elif what == "is_excluded":
         planlib.validate_is_excluded(ctx, R, seed, 40 if q else 200)
-        planlib.is_excluded_obligation(ctx, prover, pid, 1, 3, 4)
+        planlib.is_excluded_obligation(ctx, prover, pid, 1, 4, 4)
     elif what == "is_excluded-2":
         planlib.is_excluded_obligation(ctx, prover, pid, 2, 2, 3)
     elif what == "is_excluded-long":
